@@ -119,8 +119,10 @@ def check(ctx: Ctx) -> list[RuleResult]:
     for c in calls:
         r3.instances += 1
         r3.nontrivial += 1
-        kw = {k.arg: norm(k.value) for k in c.keywords}
-        a0 = norm(c.args[0]) if c.args else None
+        from .common import expand as _expand16
+
+        kw = {k.arg: norm(_expand16(rc.node, k.value, pure_only=False)) for k in c.keywords}
+        a0 = norm(_expand16(rc.node, c.args[0], pure_only=False)) if c.args else None
         if a0 == "self._msg_handler" and kw.get("exclude_list") == "self._exclude" and kw.get("include_list") == "self._include" and kw.get("disable_sending") == "True":
             r3.ok({"protocol_factory": {"handler": a0, **kw}})
         else:
@@ -128,7 +130,7 @@ def check(ctx: Ctx) -> list[RuleResult]:
     tcalls = [n for n in own_nodes(rc.node) if isinstance(n, ast.Call) and norm(n.func) == "transport_factory"]
     r3.instances += 1
     r3.nontrivial += 1
-    if tcalls and any(k.arg == "packet_dict" and norm(k.value) == "packets" for k in tcalls[0].keywords):
+    if tcalls and any(k.arg == "packet_dict" and norm(_expand16(rc.node, k.value, pure_only=False)) == "packets" for k in tcalls[0].keywords):
         r3.ok({"transport_factory": "packet_dict=packets"})
     else:
         r3.fail(f"{rc.short}:transport_factory", rc.loc(), "the restore no longer feeds the packets through transport_factory(packet_dict=packets)")
